@@ -424,8 +424,11 @@ def relevant_obligations(pid, results):
                 if pid in props:
                     out.append(o)
         else:
+            hp = getattr(r, "harness_props", {})
             for o in r.obligations:
-                out.append(o)
+                lab = o.split("/")[0]
+                if lab not in hp or pid in hp[lab]:
+                    out.append(o)
     return out
 
 
